@@ -50,11 +50,15 @@ func VH_C06_zipkin_roundtrip() {
 	if hasDur {
 		body += `,"duration":250`
 	}
-	if endpoints >= 1 {
-		body += `,"localEndpoint":{"serviceName":"front"}`
-	}
-	if endpoints == 2 {
-		body += `,"remoteEndpoint":{"serviceName":"back"}`
+	if endpoints == 2 && vrt.Bool("remote-endpoint-first") {
+		body += `,"remoteEndpoint":{"serviceName":"back"},"localEndpoint":{"serviceName":"front"}`
+	} else {
+		if endpoints >= 1 {
+			body += `,"localEndpoint":{"serviceName":"front"}`
+		}
+		if endpoints == 2 {
+			body += `,"remoteEndpoint":{"serviceName":"back"}`
+		}
 	}
 	body += `,"tags":{"k":"v` + string([]byte{tv}) + `"}}]`
 
